@@ -299,7 +299,10 @@ pub fn run(args: &Args) {
     let rounds = args.n(250, 6000);
     let mut total_sub = 0;
     let mut total_ret = 0;
-    for r in 0..rounds {
+    // Every Pipeline leaves its thread (and that thread's runtime) behind: the layered processor
+    // stream never terminates. Long runs are therefore split into shards (separate processes).
+    let (shard, shards) = args.param("shard").and_then(|s| s.split_once('/')).map(|(a, b)| (a.parse::<u64>().unwrap_or(0), b.parse::<u64>().unwrap_or(1).max(1))).unwrap_or((0, 1));
+    for r in (0..rounds).filter(|r| r % shards == shard) {
         let mut rng = Rng::fork(args.seed ^ 0xC14, r);
         let p = *rng.pick(&[0u64, 100, 1000, 1000]);
         PAUSE_PERMILLE.store(p, Ordering::Relaxed);
